@@ -191,6 +191,9 @@ ADDED['C13'] += ' The first-request time of a deferred event is set at its creat
 ADDED['C12'] += ' Dirty bytes are the exact difference of the written and the synced counter.'
 ADDED['C16'] += ' migrate_blob reports success only after the copy pipeline ran.'
 ADDED['C06'] += ' A read is refused only against the size of the file, never against a counter that can lag behind it.'
+ADDED['C07'] += ' The id counter is seeded with max + 1 computed by the checked addition.'
+ADDED['C10'] += ' A group node created under the root has a parent link.'
+ADDED['C11'] += ' A failed index dump of one closed blob does not end the pass over the closed blobs; a blob size read before an append is not used for the index afterwards.'
 ADDED['C13'] += ' A clean close completes the index dumps of the closed blobs (finding F17).'
 ADDED['C16'] += ' After a clean close the index file of every closed blob is current (finding F17); the offline reader skips record data only after a header validation failure.'
 
